@@ -127,6 +127,50 @@ def find_replace_chains(fn):
     return [c for _, _, c in sorted(found)]
 
 
+def dispatch_table(fn):
+    """`load(config_path)`: which file extensions select which loader.  The first if-chain of the
+    function must test `os.path.splitext(config_path)[1]` with `in (<constants>)` or `== <constant>`;
+    a branch is classified by the loader function it calls; the final else must raise."""
+    fn = getattr(fn, "__wrapped__", fn)
+    tree = ast.parse(textwrap.dedent(inspect.getsource(fn))).body[0]
+    chain = next((st for st in tree.body if isinstance(st, ast.If)), None)
+    if chain is None:
+        raise Untranslatable("no if-chain")
+    table = {"yaml": [], "python": []}
+
+    def is_ext(node):
+        return (isinstance(node, ast.Subscript) and isinstance(node.value, ast.Call)
+                and ast.unparse(node.value.func) == "os.path.splitext" and ast.unparse(node.slice) == "1")
+    node = chain
+    while True:
+        t = node.test
+        if not (isinstance(t, ast.Compare) and len(t.ops) == 1 and is_ext(t.left)):
+            raise Untranslatable("condition %s" % ast.unparse(t))
+        comp = t.comparators[0]
+        if isinstance(t.ops[0], ast.In) and isinstance(comp, (ast.Tuple, ast.List, ast.Set)) and all(
+                isinstance(e, ast.Constant) and isinstance(e.value, str) for e in comp.elts):
+            exts = [e.value for e in comp.elts]
+        elif isinstance(t.ops[0], ast.Eq) and isinstance(comp, ast.Constant) and isinstance(comp.value, str):
+            exts = [comp.value]
+        else:
+            raise Untranslatable("condition %s" % ast.unparse(t))
+        names = {n.id for st in node.body for n in ast.walk(st) if isinstance(n, ast.Name)}
+        kinds = [k for k, f in (("yaml", "load_yaml_configuration"), ("python", "load_python_configuration")) if f in names]
+        if len(kinds) != 1:
+            raise Untranslatable("branch calls %s" % kinds)
+        table[kinds[0]] += exts
+        if len(node.orelse) == 1 and isinstance(node.orelse[0], ast.If):
+            node = node.orelse[0]
+            continue
+        if not (len(node.orelse) == 1 and isinstance(node.orelse[0], ast.Raise)):
+            raise Untranslatable("the final else does not raise")
+        return table
+
+
+def strs_lean(l):
+    return "[" + ", ".join('"%s"' % x.replace("\\", "\\\\").replace('"', '\\"') for x in l) + "]"
+
+
 def chars(s):
     def esc(c):
         return {"'": "'\\''", "\\": "'\\\\'", "\n": "'\\n'"}.get(c, "'%s'" % c)
@@ -150,7 +194,7 @@ def render():
     from cobald.controller.relative_supply import RelativeSupplyController
     from cobald.monitor import format_line
     out = ["/- GENERATED by harness/vh/translate.py from the source text of /repo — do not edit.",
-           "   Regenerated on every run of the checks that depend on it (C06 C08 C17); the theorems `gen_*` in",
+           "   Regenerated on every run of the checks that depend on it (C06 C08 C13 C17); the theorems `gen_*` in",
            "   their Props files equate these definitions with the hand-written models and are thereby",
            "   re-checked against what the code says now. -/",
            "import CobaldVerif.Model.Num", "", "namespace Cobald.Gen", "open Cobald Cobald.ERat", ""]
@@ -182,6 +226,9 @@ def render():
     emit("escapeKeyPairs", "", "List (Char × List Char)", lambda: chain_of(format_line.escape_key, 0, 1))
     emit("escapeFieldPairs", "", "List (Char × List Char)", lambda: chain_of(format_line.escape_field, 0, 1))
     emit("escapeNamePairs", "", "List (Char × List Char)", lambda: chain_of(format_line.line_protocol, 0, 1))
+    import cobald.daemon.core.config as core_config
+    emit("dispatchYaml", "", "List String", lambda: strs_lean(dispatch_table(core_config.load)["yaml"]))
+    emit("dispatchPython", "", "List String", lambda: strs_lean(dispatch_table(core_config.load)["python"]))
     out += ["end Cobald.Gen", ""]
     return "\n".join(out)
 
